@@ -14,6 +14,7 @@ func init() {
 		Run: runC05,
 		Explanation: "Decides for GoChannel: the per-subscription mutex is held at the send on the output channel and at the settle-wait, only the deliver function sends on that channel, and from the send every path to the function's exit passes the settle-wait — so the next delivery cannot start before the previous one was settled, whatever the buffer size or number of publishers; " +
 			"in blocking mode every message's fan-out is followed, before the next message or a successful return, by the wait helper (a select over exactly the fan-out's completion channel and the Pub/Sub's closing signal); the completion channel is closed only when there were no subscribers or after a WaitGroup that counts every deliver goroutine. " +
+			"Before the send every path polls the subscription's closing signal without blocking, so a sender that was queued behind an unsettled message does not deliver once the subscription is closing (F11, repaired); a delivery that is waited for in place runs with none of the Pub/Sub's locks held, and the wait helper returns only after its select or in non-blocking mode. " +
 			"The rule 'no wait for subscriber acks while the subscribers lock is held' is violated today (known finding F9: blocking Publish + subscriber publishing to another topic + pending Subscribe deadlocks). Not decided: per-publisher order as a history property, fairness.",
 		Assumptions: commonAssumptions,
 	})
@@ -113,6 +114,39 @@ func c05OneInFlight(c *Check, P string, r *GCRoles) {
 		}
 		c.Report(ok, P+".O1", "WAIT-AFTER-SEND", D, s.Ins.Pos(), k, "after a message was handed to the subscriber every path waits for its Ack/Nack (or the subscription's closing) before anything else", wit...)
 	}
+	// a sender that was queued on the mutex behind an unsettled message gets the mutex as soon as the subscription starts
+	// closing (the waiting sender returns on the closing signal, the message still unsettled): before it sends it asks —
+	// in a poll that cannot block and cannot lose against the send case — whether the subscription is closing
+	var polls []ssa.Instruction
+	for _, si := range Selects(D) {
+		if si.Blocking || si.Default == nil {
+			continue
+		}
+		for _, cs := range si.Cases {
+			if cs.Send || cs.Edge == nil || !AllOrigins(cs.Chan, IsFieldLoad(r.SClosing)) {
+				continue
+			}
+			// the closing case leads to no send
+			re := ReachEdge(*cs.Edge, nil)
+			quiet := true
+			for _, s2 := range r.Sends {
+				if re[s2.Ins] {
+					quiet = false
+				}
+			}
+			if quiet && len(si.Cases) == 1 {
+				polls = append(polls, si.Sel)
+			}
+		}
+	}
+	c.RoleKeys = true
+	for i, s := range r.Sends {
+		// (a resend after a Nack needs no new poll: the sender kept the mutex, and the message it sends again is settled)
+		entry := ReachEntry(D, NewCut().AddInstrs(polls...))
+		c.Report(len(polls) > 0 && !entry[s.Ins], P+".O1", "NO-SEND-ONCE-CLOSING", D, s.Ins.Pos(), fmt.Sprintf("send#%d", i),
+			"every path to the send passes a non-blocking poll of the subscription's closing signal that gives up when it is raised (in the send select itself the closing case competes with the send at random, so a queued second message could be delivered while the first is unsettled)")
+	}
+	c.RoleKeys = false
 	for i, sw := range sws {
 		held := r.LA.Held(sw.si.Sel)
 		c.Report(held[r.idSending] == 'W', P+".O1", "SENDING-HELD-AT-WAIT", D, sw.si.Sel.Pos(), fmt.Sprintf("settle-wait#%d", i), "the sending mutex is still held while waiting for the settlement (one unsettled message per subscription)", "held: "+held.String())
